@@ -677,7 +677,7 @@ spif_str_splice(spif_str_t self, spif_stridx_t idx, spif_stridx_t cnt, spif_str_
         memcpy(tmp, self->s, idx);
         ptmp += idx;
     }
-    if (!SPIF_OBJ_ISNULL(other)) {
+    if (!SPIF_OBJ_ISNULL(other) && other->len) {
         memcpy(ptmp, other->s, other->len);
         ptmp += other->len;
     }
